@@ -540,11 +540,16 @@ def check_compute_hashes(hash_tree):
         if len(loops) != 1 or _u(loops[0].iter) != f"sorted({mp})" or not _name(loops[0].target, "path") \
                 or loops[0].orelse:
             raise TranslatorError(f"{fname}: not one loop `for path in sorted({mp})`")
-        top = [_u(s) for s in loops[0].body]
         want = [f"old_file_hash = {mp}[path]", "new_file_hash = old_file_hash.refreshed(path, cancel_event)",
                 f"{allv}[path] = new_file_hash"]
-        if top[:3] != want:
-            raise TranslatorError(f"{fname}: the loop does not start with {want}")
+        if fname == "compute_inp_hashes":
+            # the head may wrap refreshed in try/except (an unreadable input counts as changed): gen_hash_skip.py
+            from .gen_hash_skip import parse_inp_loop_head
+            parse_inp_loop_head(loops[0].body)
+        else:
+            top = [_u(s) for s in loops[0].body]
+            if top[:3] != want:
+                raise TranslatorError(f"{fname}: the loop does not start with {want}")
         for n in ast.walk(fn):
             if isinstance(n, (ast.Break, ast.Continue)):
                 raise TranslatorError(f"{fname}: break/continue in the loop")
